@@ -79,12 +79,23 @@ func LoadProgram(repo, verifDir, group string) (*Program, error) {
 	if err := addDir(filepath.Join(verifDir, "harness", group), "zzverif/"+group); err != nil {
 		return nil, err
 	}
+	if err := addDir(filepath.Join(verifDir, "vp", "oracle"), "zzverif/oracle"); err != nil {
+		return nil, err
+	}
+	loadEnv := append(os.Environ(), "GOFLAGS=-mod=mod", "GOPROXY=off", "GOSUMDB=off", "GOTOOLCHAIN=local", "GODEBUG=goindex=0")
+	stubbed, err := patchedSources(repo, verifDir, group, loadEnv)
+	if err != nil {
+		return nil, err
+	}
+	for path, content := range stubbed {
+		overlay[path] = content
+	}
 	cfg := &packages.Config{
 		Mode: packages.NeedName | packages.NeedFiles | packages.NeedCompiledGoFiles | packages.NeedImports |
 			packages.NeedDeps | packages.NeedTypes | packages.NeedSyntax | packages.NeedTypesInfo | packages.NeedTypesSizes | packages.NeedModule,
 		Dir:     repo,
 		Overlay: overlay,
-		Env:     append(os.Environ(), "GOFLAGS=-mod=mod", "GOPROXY=off", "GOSUMDB=off", "GOTOOLCHAIN=local"),
+		Env:     loadEnv,
 	}
 	pkgs, err := packages.Load(cfg, "./zzverif/"+group)
 	if err != nil {
